@@ -184,6 +184,60 @@ func ruleTeletextNational(p *Prog, l *Ledger, tier string) {
 		l.Fail(rule, name, key, blockPos(p, fn.Blocks[0]), name+": "+bad[0]+fmt.Sprintf(" (%d deviation(s) from ETS 300 706 table 36): text in a non-default national option is decoded with the wrong character", len(bad)))
 	}
 	l.Min(rule, 1, 1)
+	// the table the national characters are installed into is a fresh copy of the designated G0 table on
+	// every call that gets past the "same charset code as before" early return: a copy that is skipped
+	// when the table pointer has not changed keeps the previous page's national characters at the 13
+	// positions whenever the new designation has no national sub-set
+	keyC := rule + "|fresh-g0-copy"
+	var commit *ssa.Store
+	var copies []ssa.Instruction
+	for _, h := range p.Helpers(fn) {
+		if fnPkg(h) != p.LibSSA {
+			continue
+		}
+		for _, b := range h.Blocks {
+			for _, ins := range b.Instrs {
+				st, ok := ins.(*ssa.Store)
+				if !ok {
+					continue
+				}
+				if isFieldAddrOf(st.Addr, "lastPageCharsetCode") && h == fn {
+					commit = st
+				}
+				if isFieldAddrOf(st.Addr, "c") {
+					if site := p.siteIn(fn, st); site != nil {
+						copies = append(copies, site)
+					}
+				}
+			}
+		}
+	}
+	switch {
+	case commit == nil || len(copies) == 0:
+		l.Undecide(rule, name, keyC, "", "the store of the page's charset code or the copy of the G0 table into the decoder was not found in updateCharset")
+	default:
+		bad := ""
+		for _, b := range fn.Blocks {
+			r, ok := b.Instrs[len(b.Instrs)-1].(*ssa.Return)
+			if !ok || !(commit.Block() == b || commit.Block().Dominates(b)) {
+				continue
+			}
+			dom := false
+			for _, c := range copies {
+				if c.Block() == b || c.Block().Dominates(b) {
+					dom = true
+				}
+			}
+			if !dom {
+				bad = p.Pos(r.Pos())
+			}
+		}
+		if bad == "" {
+			l.Prove(rule, name, keyC, p.Pos(commit.Pos()), "every return after the charset code has been recorded is dominated by a copy of the designated G0 table into the decoder")
+		} else {
+			l.Fail(rule, name, keyC, bad, name+": the return at "+bad+" is reached with a new charset code recorded but without the designated G0 table having been copied into the decoder: the 13 national option positions keep what the previous page installed when the new designation has no national sub-set")
+		}
+	}
 }
 
 // globalTableLookup: v (conversions stripped) is element idx of a package-level array or slice:
